@@ -22,7 +22,9 @@ META = {
                    'acceptance of init() on the corner dates of the supported years (R4-accept); def-use rule for the Python '
                    'buffer-size estimator (R5-est); copyAndReplace() interpreted (E-SEQ, typed) on every short source string, replacement and '
                    'buffer size with guard cells behind the buffer (R2-copy); the interval domain knows the remainder written as '
-                   'x - c * (x / c).',
+                   'x - c * (x / c); isError(), dayOfWeek(), toEpochDays(), toEpochSeconds(), toSeconds() of LocalDate / LocalTime / LocalDateTime and '
+                   'LocalDate::daysInMonth interpreted on every combination of boundary values of the stored fields: no read outside a '
+                   'constant table (R2-table); init() refuses the corner dates a year or more outside the zone data (R4-reject).',
     'decided': 'no dereference of an untested nullable result; every indexed store/address into a fixed array is inside its '
                'capacity (given the listed, data-discharged exceptions); every epoch accessor/factory/parser tests its error '
                'condition first; fill code runs only inside the supported year range and init() accepts every date of that range; '
